@@ -322,3 +322,52 @@ func applyHistoryTags(ctx context.Context, s *Store, nodes []vnode, m *refModel,
 		}
 	}
 }
+
+// modelGC: keep what is reachable from a tagged node, plus indexed referrer chains ending in
+// a reachable manifest.
+func modelGC(nodes []vnode, m *refModel) {
+	keep := make([]bool, len(nodes))
+	var mark func(i int)
+	mark = func(i int) {
+		for j := range nodes {
+			if sameBlob(nodes[j].desc, nodes[i].desc) && !keep[j] && m.stored[j] {
+				keep[j] = true
+				for _, c := range nodes[j].links {
+					mark(c)
+				}
+				// a foreign layer entry names the blob file by digest as well: it is referenced content
+				for _, c := range nodes[j].foreign {
+					mark(c)
+				}
+			}
+		}
+	}
+	for _, n := range m.tags {
+		mark(n)
+	}
+	for changed := true; changed; {
+		changed = false
+		for r := range nodes {
+			if !m.stored[r] || keep[r] || nodes[r].kind == kindBlob {
+				continue
+			}
+			// follow the subject chain
+			for s := nodes[r].subject; s >= 0; s = nodes[s].subject {
+				if !storedIdx(nodes, m, s) {
+					break
+				}
+				if keep[s] {
+					mark(r)
+					changed = true
+					break
+				}
+			}
+		}
+	}
+	for i := range nodes {
+		if m.stored[i] && !keep[i] {
+			m.stored[i] = false
+		}
+	}
+}
+
